@@ -7,10 +7,12 @@
    collide when concatenated ("ab"+"c" = "a"+"bc") and exports one path per distinct state. *)
 EXTENDS Naturals, Sequences, FiniteSets, TLC, Json
 
-CONSTANTS DMaps, Keys, Vals, MaxOps, Export
+CONSTANTS DMaps, Keys, Vals, MaxOps, Export, AllPaths
 VARIABLES m, nops, log
 vars == <<m, nops, log>>
-view == <<m, nops>>
+\* AllPaths: every operation sequence is a state of its own (sequences that reach the same abstract state need
+\* not reach the same implementation state: which members know the DMap, which fragments exist)
+view == IF AllPaths THEN <<m, nops, log>> ELSE <<m, nops, <<>> >>
 Init == m = [d \in DMaps |-> [k \in Keys |-> "nil"]] /\ nops = 0 /\ log = <<>>
 Logged(r) == log' = Append(log, r) /\ nops' = nops + 1
 Put(d, k, v) == nops < MaxOps /\ m' = [m EXCEPT ![d][k] = v] /\ Logged([op |-> "put", d |-> d, k |-> k, v |-> v])
